@@ -372,6 +372,36 @@ func runAll(c *run.Ctx) {
 			unary(k, b)
 		})
 	}
+	// the same lattice at extreme magnitudes (exact powers of two, so the interval arithmetic stays exact):
+	// extents whose product underflows or overflows must not change the classification
+	for si, sc := range []float64{math.Ldexp(1, -560), math.Ldexp(1, -1040), math.Ldexp(1, 500)} {
+		for i, b := range bs {
+			if b.empty {
+				continue
+			}
+			sb := box{false, b.x0 * sc, b.y0 * sc, b.x1 * sc, b.y1 * sc}
+			c.Case(fmt.Sprintf("env-scaled:%d", si), i, func(k *run.K) {
+				k.In("envelope", sb.String())
+				k.Nontrivial("s" + sb.String())
+				e := sb.env()
+				w, h := sb.x1-sb.x0, sb.y1-sb.y0
+				isPt := w == 0 && h == 0
+				isLn := (w == 0) != (h == 0)
+				isRect := w > 0 && h > 0
+				k.Check("method-classify", !e.IsEmpty() && e.IsPoint() == isPt && e.IsLine() == isLn && e.IsRectangle() == isRect,
+					"%v: IsEmpty/IsPoint/IsLine/IsRectangle = %v/%v/%v/%v", sb, e.IsEmpty(), e.IsPoint(), e.IsLine(), e.IsRectangle())
+				g := e.AsGeometry()
+				wantType := geom.TypePolygon
+				if isPt {
+					wantType = geom.TypePoint
+				} else if isLn {
+					wantType = geom.TypeLineString
+				}
+				k.Check("method-AsGeometry", g.Type() == wantType && envEq(g.Envelope(), e), "%v: AsGeometry = %s", sb, g.AsText())
+				k.Check("method-measures", e.Width() == w && e.Height() == h, "%v: Width/Height = %g/%g", sb, e.Width(), e.Height())
+			})
+		}
+	}
 	// all ordered pairs, in blocks of one first operand per case
 	for i, a := range bs {
 		c.Case("env-pairs", i, func(k *run.K) {
